@@ -74,6 +74,7 @@ def c01(ctx, v):
         B.r_units(ctx, v, only=lambda f: f.key.startswith("priority_queue::"))
     representation(ctx, v)
     M.r_strat(ctx, v)   # append: whole stores are exchanged (never handles), `other` is left empty - or IT holds unsifted elements
+    I.r_lending(ctx, v, only_types=lambda T_: T_.startswith("priority_queue::"))
     ctx.floor("R-RESTORE[PriorityQueue]", sum(1 for o in ctx.obs if o.rule == "R-RESTORE" and o.config == v.config), 15)
 
 
@@ -108,6 +109,7 @@ def c02(ctx, v):
         B.r_units(ctx, v, only=lambda f: f.key.startswith("double_priority_queue::"))
     representation(ctx, v)
     M.r_strat(ctx, v)
+    I.r_lending(ctx, v, only_types=lambda T_: T_.startswith("double_priority_queue::"))
     ctx.floor("R-RESTORE[DoublePriorityQueue]", sum(1 for o in ctx.obs if o.rule == "R-RESTORE" and o.config == v.config), 15)
 
 
@@ -170,6 +172,7 @@ def r_absent(ctx, v):
 
 def c04(ctx, v):
     fixture_once(ctx, ["R-UNSAFEKINDS", "R-HINT", "R-ORDERPANIC"])
+    I.r_lending(ctx, v)
     D.r_newtypeord(ctx, v)
     if B:
         B.r_orderpanic(ctx, v)
@@ -244,6 +247,7 @@ def c08(ctx, v):
     O.r_extreme(ctx, v, PQ, only=("pop_if",))
     O.r_extreme(ctx, v, DPQ, only=("pop_min_if", "pop_max_if"))
     I.r_cursor(ctx, v)  # "iter_mut visits each element at most once"
+    I.r_lending(ctx, v)  # "every priority written through it is the element's priority afterwards ... correctly ordered again"
 
 
 def c09(ctx, v):
@@ -411,7 +415,8 @@ PROPS = {
     "C08": {"rules": [c08], "explanation":
             "R-RESTORE for retain/retain_mut/pop_*_if/IterMut-Drop, R-ONCE (user predicate invoked exactly once per element/call, only through "
             "the Store primitive), R-IFF (swap_remove_if removes iff the predicate accepted; the refused path writes nothing), R-GROW retain "
-            "group, R-EXTREME (predicate sees the extreme), R-EXPOSE.", "trusted": [TRUST_RUSTC, "indexmap retain2 visits each entry once"],
+            "group, R-EXTREME (predicate sees the extreme), R-EXPOSE; R-LENDING (an iterator that yields `&mut` into the queue - its items outlive it - does not "
+            "access the entries in its destructor: a rebuild there runs before the writes the caller still makes).", "trusted": [TRUST_RUSTC, "indexmap retain2 visits each entry once"],
             "assumptions": []},
     "C09": {"rules": [c09], "explanation":
             "R-CURSOR over every function that turns a raw pointer back into a reference (the complete set of lifetime extensions, enumerated "
